@@ -390,3 +390,54 @@ contract('bitstream.BitStream.replace', shapes=[sh for sh in _replace_shapes() i
 from pyvc.contract import REGISTRY as _R
 for _q in ('bits.Bits.findall', 'bits.Bits.split', 'bits.Bits.cut'):
     _R[_q].inline = True        # generator contracts are not substituted at call sites
+
+
+# ---- `bs in s` -----------------------------------------------------------------------------------------
+def _contains_shapes():
+    out = []
+    for cls, st in SELF_STATES:
+        for k in (('obj', 'Bits', 'immutable'), ('str',), ('obj', 'BitArray', 'plain')):
+            for optba in (False, True):
+                def build(S, interp, cls=cls, st=st, k=k):
+                    o = m_bits(S, interp, 'self', cls, st)
+                    return [o, m_operand(S, interp, 'bs', k, o)], {}
+
+                def real(vals, cls=cls, st=st, k=k):
+                    o = r_bits(vals, 'self', cls, st)
+                    return [o, r_operand(vals, 'bs', k, o)], {}
+                out.append(Shape(f'{cls}/{st}/{opname(k)}/opt={optba}', build, real, opts={'bytealigned': optba}))
+    return out
+
+
+@contract('bits.Bits.__contains__', shapes=_contains_shapes(), props={'C07', 'C06'}, kind='public', relational=True, observe_args=False,
+          note="`bs in s`: True iff bs occurs at some bit position of s -- at any position, whatever options.bytealigned says; "
+               "ValueError for an empty pattern; a stream's pos does not move")
+def contains_post(C, args, kwargs, out):
+    self, bs = args
+    D, P = bits(self), promote_bits(C, bs)
+    if sym.truth(sym.eq(P.n, 0)):
+        yield ('empty-pattern-raises', out.kind == 'exc' and out.value.cls.is_subclass(C.interp.builtins['ValueError']))
+        return
+    if out.kind == 'exc':
+        yield ('raises', False, f'unexpected {out.value.cls.name}')
+        return
+    r = out.value
+    yield ('bool', isinstance(r, (bool, sym.SBool)))
+    if '_pos' in self.attrs:
+        p0 = z3.Int('self.pos') if sym.have_ctx() else None
+        if p0 is not None:
+            yield ('pos-unchanged', sym.eq(self.attrs['_pos'], SInt(p0)))
+    if not sym.have_ctx():
+        ms = _brute(_concrete(D), _concrete(P), 0, len(_concrete(D)), False)
+        yield ('iff-some-occurrence', bool(r) == bool(ms))
+        return
+    m, n = sym._int_t(P.n), sym._int_t(D.n)
+
+    def occurs(x):
+        return z3.And(0 <= x, x + m <= n, occ_term(D, P, x))
+    q = sym.ctx().fresh_int('q')
+    if sym.truth(r):
+        w = z3.Int('w!occ')
+        yield ('sound', sym.mk_bool(z3.Exists([w], occurs(w))))
+    else:
+        yield ('complete', sym.mk_bool(z3.Not(occurs(q))))
